@@ -28,7 +28,7 @@ def run_scenario(args):
     base, k, sc = args
     d = os.path.join(base, "s%d" % k); os.makedirs(d)
     jf = os.path.join(d, "sc.json"); json.dump(dict(sc, dir=d), open(jf, "w"))
-    env = dict(os.environ, PYTHONPATH="/repo", PYTHONDONTWRITEBYTECODE="1", JOBLIB_TEMP_FOLDER=d)
+    env = dict(os.environ, PYTHONPATH=os.environ.get("VERIF_REPO", "/repo"), PYTHONDONTWRITEBYTECODE="1", JOBLIB_TEMP_FOLDER=d)
     # output goes to a file: loky workers inherit the descriptors and would keep a pipe open long after the driver is gone
     with open(os.path.join(d, "driver.log"), "w") as lf:
         try:
